@@ -387,7 +387,7 @@ pub fn run_case(a: &Args, tag: &'static str, idx: u64, acc: &mut Acc) {
 }
 
 pub fn run(a: &Args) -> Acc {
-    let n = a.n(2500, 50000);
+    let n = a.n(10000, 150000);
     let mut acc = par_run(a, "c11", n, |a, idx, acc| run_case(a, "c11", idx, acc));
     // coverage floor: all routes must have been exercised
     let need = ["copy_file:fast-path", "copy_file:fallback-after-NotSupported", "copy_file:cross-instance-stream", "move_file:fast-path", "move_file:fallback-after-NotSupported", "move_dir:fast-path", "move_dir:fallback-after-NotSupported", "move_dir:cross-instance-stream", "copy_dir:generic"];
